@@ -50,10 +50,20 @@ func c09Step(x *engine.Exec) []engine.Failure {
 	}
 	prev, next := x.Prev.Snap(), x.Next.Snap()
 	var out []engine.Failure
+	if x.Op.K != world.KBlock && x.Op.K != world.KGovParams && !prev.Params.LastTakeRateClaimTime.Equal(next.Params.LastTakeRateClaimTime) {
+		// the clock is one module-wide value: it advances by whole intervals inside the end-of-block deduction (or is set by a
+		// governance params update); nothing else may move it, or assets are not charged for intervals that did elapse
+		out = append(out, fail("clock", "moved-outside-deduction", "%s moved the take-rate clock %s -> %s", x.Op.String(), prev.Params.LastTakeRateClaimTime, next.Params.LastTakeRateClaimTime))
+	}
+	if x.Op.K == world.KGovUpdate {
+		if a, ok := prev.Assets[x.Op.Denom]; ok && a.TakeRate.IsZero() && a.TotalTokens.IsPositive() && next.Assets[x.Op.Denom].TakeRate.IsPositive() {
+			x.Cnt.Inc("gov.rate_raised_from_zero_on_staked_asset")
+		}
+	}
 	switch x.Op.K {
 	case world.KDelegate:
 		ref.lastDeposit[x.Op.Denom] = prev.Time.UnixNano()
-		return nil
+		return out
 	case world.KGovParams:
 		// governance moved the clock or the interval: charging for the past is then its decision, not the module's;
 		// deposits made before it are exempt from the non-retroactivity oracle
@@ -63,7 +73,7 @@ func c09Step(x *engine.Exec) []engine.Failure {
 	case world.KBlock:
 	default:
 		// no other transition may move the staked totals through the take-rate path
-		return nil
+		return out
 	}
 	defer func() { ref.prevEnd = prev.Time.UnixNano() }()
 	if x.Res.Err != nil {
@@ -243,6 +253,14 @@ func init() {
 						ops = append(ops, world.Op{K: world.KBlock, Dt: int64(dt), Class: ClsBlock})
 					}
 					if gov {
+						// the other asset's rate goes from 0 to positive (and back) while the first one is being charged: the
+						// take-rate clock is one module-wide value
+						if b, ok := s.Assets["bbb"]; ok && len(denoms) > 1 {
+							for _, r := range []string{"0", "0.5"} {
+								ops = append(ops, world.Op{K: world.KGovUpdate, Denom: "bbb", Class: ClsGov, Args: map[string]string{
+									"w": b.RewardWeight.String(), "min": b.RewardWeightRange.Min.String(), "max": b.RewardWeightRange.Max.String(), "take": r, "rate": "1", "interval": "0"}})
+							}
+						}
 						a := s.Assets["aaa"]
 						for _, r := range []string{"0", "0.5"} {
 							ops = append(ops, world.Op{K: world.KGovUpdate, Denom: "aaa", Class: ClsGov, Args: map[string]string{
@@ -271,10 +289,19 @@ func init() {
 			pinned := c09Cfg("0.3", "0", 2*U, false)
 			pinned.Assets[0].Min, pinned.Assets[0].Max = "1", "1"
 			pinned.Assets[0].ChangeRate, pinned.Assets[0].ChangeInterval = "0.5", 2*U
+			// governance in the middle of a history with two staked assets (one taxed, one at rate 0)
+			govSc := func(budgets []int, depth int) *engine.Scenario {
+				sc := mk("c09-governance", c09Cfg("0.3", "0", 2*U, false), []string{"3"}, []string{"aaa", "bbb"}, budgets, depth, true)
+				sc.Seeds = [][]world.Op{{opDel(0, 0, "aaa", "1000"), opDel(1, 1, "bbb", "1000"), opBlock(1)}}
+				sc.SeedStep = true
+				sc.Required = []string{"endblock.sub_interval", "endblock.multi_interval", "asset.charged", "gov.rate_raised_from_zero_on_staked_asset"}
+				return sc
+			}
 			small := []string{"1", "2", "3", "10", "1000"}
 			bigA := []string{"1000000", "1000000000000000000000000", "3"}
 			if tier == "thorough" {
 				return []*engine.Scenario{
+					govSc([]int{2, 0, 0, 5, 2}, 8),
 					mk("c09-r0.3-I2u", c09Cfg("0.3", "0", 2*U, false), small, []string{"aaa", "bbb"}, []int{3, 0, 0, 5, 1}, 8, true),
 					mk("c09-r0.5-r0.999999-I1u", c09Cfg("0.5", "0.999999", 1*U, false), []string{"1", "3", "1000"}, []string{"aaa", "bbb"}, []int{3, 0, 0, 5, 0}, 8, false),
 					mk("c09-r1e-6-warmup-I2u", c09Cfg("0.000001", "0", 2*U, true), []string{"3", "1000000"}, []string{"aaa", "ccc"}, []int{3, 0, 0, 5, 0}, 8, false),
@@ -283,6 +310,7 @@ func init() {
 				}
 			}
 			return []*engine.Scenario{
+				govSc([]int{1, 0, 0, 3, 2}, 5),
 				mk("c09-r0.3-I2u", c09Cfg("0.3", "0", 2*U, false), []string{"1", "3", "1000"}, []string{"aaa"}, []int{3, 0, 0, 4, 1}, 6, true),
 				mk("c09-r0.5-r0.999999-I1u", c09Cfg("0.5", "0.999999", 1*U, false), []string{"2", "1000"}, []string{"aaa", "bbb"}, []int{3, 0, 0, 4, 0}, 6, false),
 				mk("c09-r1e-6-warmup-I2u", c09Cfg("0.000001", "0", 2*U, true), []string{"3", "1000000"}, []string{"aaa", "ccc"}, []int{3, 0, 0, 4, 0}, 6, false),
